@@ -54,6 +54,7 @@ var polluters = []struct{ name, src string }{
 	{"props-shared-second-path", `_.props.s2.k = 99; _.props.lst[1].z = 1; _.props.lst[1].arr.push(2); return _.bindings;`},
 	{"bindings-permanent-nested", `_.bindings["cfg!"].limits.max = 99; _.bindings["cfg!"].hosts[0] = "x"; _.bindings["cfg!"].added = 1; return _.bindings;`},
 	{"bindings-go-typed", `if (_.bindings.samples) { _.bindings.samples[0] = 99; _.bindings.weights.a = 7; _.bindings.weights.b = 1; _.bindings.points[0].x = 5; } return _.bindings;`},
+	{"props-go-typed", `if (_.props && _.props.tags) { _.props.tags.env = "changed"; _.props.tags.added = "x"; _.props.hostnames[0] = "changed"; _.props.typed.inner.k = "changed"; _.props.typed.list[0].k = "changed"; } return _.bindings;`},
 	{"define-getter", `Object.defineProperty(Object.prototype, "sneaky", {get: function() { return 1; }}); return _.bindings;`},
 }
 
@@ -180,7 +181,12 @@ func inputPropsMode(mode int) core.StepProps {
 func inputProps() core.StepProps {
 	// one map reachable by several paths
 	shared := map[string]interface{}{"k": 1.0, "arr": []interface{}{1.0}}
-	return core.StepProps{"s1": shared, "s2": shared, "lst": []interface{}{shared, shared}, "n": 5.0, "q": "s", "a": map[string]interface{}{"b": 1.0}, "l": []interface{}{1.0, 2.0},
+	return core.StepProps{
+		// what a Go host puts there need not be made of the JSON decoder's
+		// types
+		"tags": map[string]string{"env": "prod"}, "hostnames": []string{"a", "b"},
+		"typed": map[string]interface{}{"inner": map[string]string{"k": "v"}, "list": []map[string]string{{"k": "v"}}},
+		"s1":    shared, "s2": shared, "lst": []interface{}{shared, shared}, "n": 5.0, "q": "s", "a": map[string]interface{}{"b": 1.0}, "l": []interface{}{1.0, 2.0},
 		"d":     map[string]interface{}{"e": map[string]interface{}{"f": []interface{}{}}},
 		"items": []interface{}{map[string]interface{}{"qty": 1.0}},
 		"grid":  []interface{}{[]interface{}{1.0, 2.0}, []interface{}{3.0}}}
